@@ -615,11 +615,23 @@ def _check_index_predicate(rep: Report, checker: FunctionInfo):
         return
     t = test[0].test
     classes = {"neg_int": True, "zero": False, "pos_int": False, "float": True, "str": True, "neg_float": True}
+    members = {"neg_int": [-1, -7], "zero": [0], "pos_int": [1, 12, 10 ** 6], "float": [1.0, 2.5, 0.0], "str": ["1", ""], "neg_float": [-1.5, -2.0]}
     bad = []
     for cls, want in classes.items():
         got = _abs_eval(t, loopvar, cls)
         if got is None:
-            raise AnalysisError(f"{checker.ref}: index predicate {norm(t)} not understood by the abstract evaluator")
+            # outside the abstract evaluator's vocabulary: fold the test on members of the class instead
+            from ..consteval import Folder as _F, Raised as _R, Undecidable as _U
+            vals = set()
+            for m in members[cls]:
+                try:
+                    fo = _F(env={loopvar: m})
+                    vals.add(bool(fo.truth(fo.expr(t), t)))
+                except _R:
+                    vals.add(True)             # the test itself raises on this value: the value is refused
+                except _U as e:
+                    raise AnalysisError(f"{checker.ref}: index predicate {norm(t)} not understood ({e})")
+            got = vals.pop() if len(vals) == 1 else "mixed"
         if got == "mixed":
             bad.append(f"{cls}: the test is true for some values of the class and false for others, expected {want} throughout")
         elif got != want:
